@@ -190,3 +190,123 @@ def t_toolchain_replay(ops: List[Tuple[int, int, int]], s0: str, s1: str, mode: 
     if mode == 0:
         return R(env.toolchain.path == 'tc.bfg' and seen[0] == dict(d))
     return R(seen[0] == first and env.toolchain.path is None)
+
+
+# ---- snapshots written by older format versions load to the same configuration -------------------
+import copy as _copy
+import io as _io
+
+
+def _v17(arg, shared, static, compdb, val):
+    return {
+        'bfgdir': ['/bfgdir/', 'absolute', False], 'backend': 'make', 'backend_version': '4.3',
+        'host_platform': {'genus': 'linux', 'species': 'linux', 'arch': 'x86_64'},
+        'target_platform': {'genus': 'linux', 'species': 'linux', 'arch': 'x86_64'},
+        'srcdir': ['/src dir/', 'absolute', False], 'builddir': ['/build/', 'absolute', False],
+        'install_dirs': {
+            'prefix': ['/opt/p/', 'absolute', False], 'exec_prefix': ['./', 'prefix', False],
+            'bindir': ['bin/', 'exec_prefix', False], 'libdir': ['lib/', 'exec_prefix', False],
+            'includedir': ['include/', 'prefix', False], 'datadir': ['share/', 'prefix', False],
+            'mandir': ['man/', 'datadir', False]},
+        'toolchain': {'path': None}, 'mopack': [], 'library_mode': [shared, static],
+        'compdb': compdb, 'extra_args': [arg],
+        'variables': {'initial': {'CC': 'gcc'}, 'current': {'CC': val}},
+    }
+
+
+def _downgrade(d, v):
+    """what format version v stored for this configuration: the inverse of the format history
+    written from the release notes in Environment.load's comments (reference model)"""
+    d = _copy.deepcopy(d)
+    if v < 17:
+        del d['install_dirs']['datadir']
+        del d['install_dirs']['mandir']
+    if v < 16:
+        del d['compdb']
+    if v < 15:
+        del d['mopack']
+        var = d.pop('variables')
+        d['initial_variables'] = var['initial']
+        d['variables'] = var['current']
+    if v < 14:
+        for i in ('host_platform', 'target_platform'):
+            d[i] = d[i]['species']
+    if v < 13:
+        del d['initial_variables']
+        del d['toolchain']
+    if v < 12:
+        d['platform'] = d.pop('host_platform')
+        del d['target_platform']
+    if v < 11:
+        for i in ('bfgdir', 'srcdir', 'builddir'):
+            d[i] = d[i][:-1]
+        for i in d['install_dirs']:
+            d['install_dirs'][i] = d['install_dirs'][i][:-1]
+    if v < 10:
+        del d['install_dirs']['exec_prefix']
+        for i in ('bindir', 'libdir'):
+            d['install_dirs'][i][1] = 'prefix'
+    if v < 9:
+        del d['library_mode']
+    if v < 8:
+        del d['extra_args']
+    if v < 7:
+        d['bfgpath'] = ['/bfgdir/bfg9000', 'absolute']
+        del d['bfgdir']
+    if v < 6:
+        del d['backend_version']
+        d['bfgpath'] = '/bfgdir/bfg9000'
+    if v < 5:
+        d['srcdir'] = '/src dir'
+        d['builddir'] = '/build'
+    return d
+
+
+class _FakeJson:
+    def __init__(self, state):
+        self.state = state
+
+    def load(self, f):
+        return self.state
+
+
+def g_upgrade(v: int, arg: str, shared: bool, static: bool, compdb: bool, val: str) -> bool:
+    """a snapshot written by any older format version (4..17) loads to the configuration it
+    recorded: every setting that version stored is kept (project arguments since 8, library mode
+    since 9, compdb switch since 16, initial variables since 13, paths and install directories
+    always), only settings the version did not have get the documented defaults
+    pre: 4 <= v <= 17 and len(arg) <= VL and len(val) <= VL
+    post: _
+    """
+    full = _v17(arg, shared, static, compdb, val)
+    state = {'version': v, 'data': _downgrade(full, v)}
+    old_open = getattr(benv, 'open', None)
+    old_json = benv.json
+    benv.open = lambda *a, **k: _io.StringIO('')
+    benv.json = _FakeJson(state)
+    try:
+        env = benv.Environment.load('x')
+    finally:
+        benv.json = old_json
+        if old_open is None:
+            del benv.open
+        else:
+            benv.open = old_open
+    ok = env.backend == 'make'
+    ok = ok and env.extra_args == ([arg] if v >= 8 else [])
+    ok = ok and tuple(env.library_mode) == ((shared, static) if v >= 9 else (True, False))
+    ok = ok and env.compdb == (compdb if v >= 16 else True)
+    ok = ok and dict(env.variables) == {'CC': val}
+    ok = ok and env.variables.initial == ({'CC': 'gcc'} if v >= 13 else {'CC': val})
+    ok = ok and env.srcdir.suffix == '/src dir' and env.builddir.suffix == '/build' and \
+        env.bfgdir.suffix == '/bfgdir' and env.srcdir.root == Root.absolute
+    dirs = env.install_dirs
+    ok = ok and dirs[InstallRoot.prefix].suffix == '/opt/p' and \
+        dirs[InstallRoot.bindir].root == InstallRoot.exec_prefix and \
+        dirs[InstallRoot.bindir].suffix == 'bin' and \
+        dirs[InstallRoot.includedir].root == InstallRoot.prefix and \
+        dirs[InstallRoot.exec_prefix].root == InstallRoot.prefix and \
+        InstallRoot.mandir in dirs and InstallRoot.datadir in dirs
+    ok = ok and env.host_platform.name == 'linux' and env.target_platform.name == 'linux'
+    ok = ok and env.toolchain.path is None and env.mopack == []
+    return R(ok)
